@@ -361,6 +361,9 @@ func VH_C10_FolderUploadTwoFilesOneNested_sym() {
 	d2 := vBytesN("data_nested", 2)
 	in := c10ItemHeader(false, "f.bin")
 	s1 := c02UploadStream([]byte("f.bin"), d1)
+	if vBool("first_file_carries_a_resource_fork") { // not kept by this server (forks are not preserved), but it must be consumed
+		s1 = c02UploadStream3([]byte("f.bin"), d1, vBytesN("resource_fork", 2))
+	}
 	in = append(in, refU32(len(s1))...)
 	in = append(in, s1...)
 	in = append(in, c10ItemHeader(true, "sub")...)
@@ -390,4 +393,34 @@ func VH_C10_FolderUploadTwoFilesOneNested_sym() {
 	} else {
 		vAssert("nested_new_file_requested", len(out) == 2+2+2+2+2+2 && out[9] == 1)
 	}
+}
+
+// A folder that contains an entry with the folder's own name (Music/Music, and a file named like the folder one level
+// down): every entry below the requested folder gets its header, only the requested folder itself does not, and the
+// announced count says the same.
+func VH_C10_FolderDownloadEntryNamedLikeTheFolder_sym() {
+	vUnroll(200)
+	const root = "/r/folder"
+	inner := vBool("inner_entry_is_a_file")
+	vWalkTree = []vWalkEntry{
+		{root + "/", &vInfo{name: "folder", dir: true}},
+		{root + "/folder", &vInfo{name: "folder", dir: !inner, size: 1}},
+		{root + "/zed", &vInfo{name: "zed", dir: true}},
+		{root + "/zed/folder", &vInfo{name: "folder", dir: true}},
+	}
+	st := &vStore{names: []string{root, root + "/folder", root + "/zed", root + "/zed/folder"}, data: [][]byte{nil, {9}, nil, nil}}
+	count, err := CalcItemCount(root)
+	vAssert("count_ok", err == nil && len(count) == 2)
+	announced := int(count[0])<<8 | int(count[1])
+	vAssert("three_entries_announced", announced == 3)
+	var in []byte
+	for i := 0; i < 8; i++ {
+		in = append(in, 0, 3) // "next" for the start, "next"/"skip" for every item offered
+	}
+	c := &vScriptRW{in: in}
+	ft := &FileTransfer{bytesSentCounter: &WriteCounter{}}
+	err = DownloadFolderHandler(c, root, ft, st, vLogger(), true)
+	vAssert("folder_download_ok", err == nil)
+	offered := c.pos/2 - 1
+	vAssert("announced_count_equals_items_offered", offered == announced)
 }
